@@ -88,6 +88,8 @@ func (expr NamedExpr) Build(builder Builder) {
 		inName           bool
 		afterParenthesis bool
 		namedMap         = make(map[string]interface{}, len(expr.Vars))
+		// the values a '?' stands for: the arguments that are not named ones, in the order given
+		positional = make([]interface{}, 0, len(expr.Vars))
 	)
 
 	for _, v := range expr.Vars {
@@ -99,6 +101,7 @@ func (expr NamedExpr) Build(builder Builder) {
 				namedMap[k] = v
 			}
 		default:
+			positional = append(positional, v)
 			var appendFieldsToMap func(reflect.Value)
 			appendFieldsToMap = func(reflectValue reflect.Value) {
 				reflectValue = reflect.Indirect(reflectValue)
@@ -140,12 +143,12 @@ func (expr NamedExpr) Build(builder Builder) {
 
 			afterParenthesis = false
 			builder.WriteByte(v)
-		} else if v == '?' && len(expr.Vars) > idx {
+		} else if v == '?' && len(positional) > idx {
 			if afterParenthesis {
-				if _, ok := expr.Vars[idx].(driver.Valuer); ok {
-					builder.AddVar(builder, expr.Vars[idx])
+				if _, ok := positional[idx].(driver.Valuer); ok {
+					builder.AddVar(builder, positional[idx])
 				} else {
-					switch rv := reflect.ValueOf(expr.Vars[idx]); rv.Kind() {
+					switch rv := reflect.ValueOf(positional[idx]); rv.Kind() {
 					case reflect.Slice, reflect.Array:
 						if rv.Len() == 0 {
 							builder.AddVar(builder, nil)
@@ -158,11 +161,11 @@ func (expr NamedExpr) Build(builder Builder) {
 							}
 						}
 					default:
-						builder.AddVar(builder, expr.Vars[idx])
+						builder.AddVar(builder, positional[idx])
 					}
 				}
 			} else {
-				builder.AddVar(builder, expr.Vars[idx])
+				builder.AddVar(builder, positional[idx])
 			}
 
 			idx++
